@@ -111,6 +111,7 @@ type world struct {
 	viols  []simkit.Violation
 
 	cli          *client.RPCClient
+	col          client.Client // the collapsing wrapper in front of cli
 	rootCtx      context.Context
 	rootCancel   context.CancelFunc
 	clientClosed atomic.Bool
@@ -413,11 +414,28 @@ func buildRequest(c *callRec) *tikvrpc.Request {
 		req = tikvrpc.NewRequest(tikvrpc.CmdBatchGet, &kvrpcpb.BatchGetRequest{Keys: [][]byte{[]byte(c.Tag)}, Version: 1}, kctx)
 	case "rawget":
 		req = tikvrpc.NewRequest(tikvrpc.CmdRawGet, &kvrpcpb.RawGetRequest{Key: []byte(c.Tag)}, kctx)
+	case "resolve":
+		// region-wide (no keys, no transaction list): the form client_collapse.go merges
+		kctx.RegionId = uint64(100 + c.Spec.Store)
+		req = tikvrpc.NewRequest(tikvrpc.CmdResolveLock, &kvrpcpb.ResolveLockRequest{StartVersion: uint64(1000 + c.Spec.Grp)}, kctx)
 	default:
 		req = tikvrpc.NewRequest(tikvrpc.CmdGet, &kvrpcpb.GetRequest{Key: []byte(c.Tag), Version: 1}, kctx)
 	}
 	req.ForwardedHost = c.Fwd
 	return req
+}
+
+// wireTag is the payload tag the server sees for the call: its own tag, or - for the collapsible ResolveLock - the name
+// of (region, transaction), which every call of that group shares.
+func (c *callRec) wireTag() string {
+	if c.Spec.Kind == "resolve" {
+		return resolveTag(uint64(100+c.Spec.Store), uint64(1000+c.Spec.Grp))
+	}
+	return c.Tag
+}
+
+func resolveTag(region, startVersion uint64) string {
+	return fmt.Sprintf("R%d.%d", region, startVersion)
 }
 
 func responseValue(resp *tikvrpc.Response) (string, bool) {
@@ -429,6 +447,8 @@ func responseValue(resp *tikvrpc.Response) (string, bool) {
 		return string(r.GetValue()), true
 	case *kvrpcpb.RawGetResponse:
 		return string(r.GetValue()), true
+	case *kvrpcpb.ResolveLockResponse:
+		return r.GetError().GetAbort(), true
 	case *kvrpcpb.BatchGetResponse:
 		if len(r.GetPairs()) == 1 {
 			return string(r.Pairs[0].GetValue()), true
@@ -509,6 +529,9 @@ func (w *world) runCall(c *callRec, ex *exec) {
 		})
 	}
 	req := buildRequest(c)
+	if spec.Kind == "resolve" {
+		w.sim.Count("reach.resolve-calls")
+	}
 	w.nameActor("call:" + c.Tag)
 	c.mu.Lock()
 	c.invoked = true
@@ -528,7 +551,7 @@ func (w *world) runCall(c *callRec, ex *exec) {
 	}()
 	if !spec.Async {
 		to := timeout
-		resp, err := w.cli.SendRequest(ctx, c.Addr, req, to)
+		resp, err := w.front(c).SendRequest(ctx, c.Addr, req, to)
 		w.recordReturn(c, resp, err)
 		w.tracef("return %s %s", c.Tag, c.Class)
 		return
@@ -537,7 +560,7 @@ func (w *world) runCall(c *callRec, ex *exec) {
 		w.recordReturn(c, resp, err)
 		w.tracef("callback %s %s", c.Tag, c.Class)
 	})
-	w.cli.SendRequestAsync(ctx, c.Addr, req, cb)
+	w.front(c).SendRequestAsync(ctx, c.Addr, req, cb)
 	for !c.done() {
 		select {
 		case f := <-ex.ch:
@@ -611,9 +634,19 @@ func (w *world) findConn(store, idx int) *simConn {
 	return best
 }
 
+// front is the client a call goes through: the collapsing wrapper (what tikv.NewKVStore puts in front of the RPC
+// client) for ResolveLock, the RPC client itself otherwise.
+func (w *world) front(c *callRec) client.Client {
+	if c.Spec.Kind == "resolve" {
+		return w.col
+	}
+	return w.cli
+}
+
 func (w *world) main() {
 	sc := w.sc
 	w.cli = client.NewRPCClient()
+	w.col = client.NewReqCollapse(w.cli)
 	if sc.Listener {
 		w.cli.SetEventListener(listener{w})
 	}
